@@ -28,9 +28,11 @@ theorem ids_distinct_legacy_counterexample :
 
 /-- **restore_reproduces.** Take a checkpoint after any history `pre`; let anything happen
 afterwards (`post`: puts, updates, deletes, expiry, further checkpoints, restores …). Then, on the
-file backend, as long as the checkpoint is still listed, `restore` succeeds and the store holds
-exactly the unexpired keys and values it held when the checkpoint was taken (`live`, and hence
-`get` for every key; the restored entries never expire); and once retention has retired it,
+file backend, as long as the checkpoint is still listed: if every value it captured is `encodable` (its JSON text
+reads back), `restore` succeeds and the store holds exactly the unexpired keys and values it held when the
+checkpoint was taken (`live`, and hence `get` for every key; the restored entries never expire); if it captured a
+value that is not (a NaN / infinite number, a value nested beyond the parser's recursion limit), `restore` reports
+a parse error and changes NOTHING — in particular it never loads the other keys; and once retention has retired it,
 `restore` reports "not found" and changes nothing. -/
 theorem restore_reproduces (c : Codec) (hc : c.Lawful) (cfg : Cfg) (hl : cfg.legacy = false)
     (hf : cfg.file = true) (pre post : List Op) :
@@ -38,9 +40,11 @@ theorem restore_reproduces (c : Codec) (hc : c.Lawful) (cfg : Cfg) (hl : cfg.leg
     let i := (checkpoint c cfg W₁).2
     let W₃ := run c cfg (checkpoint c cfg W₁).1 post
     (i ∈ W₃.metas.map (·.id) →
-        (restore c cfg W₃ i).2 = .ok
-        ∧ live (restore c cfg W₃ i).1.store (restore c cfg W₃ i).1.clock = live W₁.store W₁.clock
-        ∧ (∀ k t, sget (restore c cfg W₃ i).1.store t k = sget W₁.store W₁.clock k))
+        (encodable c (live W₁.store W₁.clock) = true →
+          (restore c cfg W₃ i).2 = .ok
+          ∧ live (restore c cfg W₃ i).1.store (restore c cfg W₃ i).1.clock = live W₁.store W₁.clock
+          ∧ (∀ k t, sget (restore c cfg W₃ i).1.store t k = sget W₁.store W₁.clock k))
+        ∧ (encodable c (live W₁.store W₁.clock) = false → restore c cfg W₃ i = (W₃, .errParse)))
     ∧ (i ∉ W₃.metas.map (·.id) → restore c cfg W₃ i = (W₃, .errNotFound)) := by
   intro W₁ i W₃
   have h1 : Inv W₁ := inv_run c hl inv_init pre
@@ -52,19 +56,35 @@ theorem restore_reproduces (c : Codec) (hc : c.Lawful) (cfg : Cfg) (hl : cfg.leg
   constructor
   · intro hin
     rcases hcase with ⟨_, hfs⟩ | ⟨hnot, _⟩
-    · have hr : restore c cfg W₃ i
-          = ({ W₃ with store := load (live W₁.store W₁.clock) W₃.clock }, .ok) := by
-        simp [restore, hf, hfs, hc.roundtrip]
-      rw [hr]
-      refine ⟨rfl, live_load _ _ hnd, ?_⟩
-      intro k t
-      rw [sget_eq_vfind t k (load_nodup _ _), live_load _ _ hnd,
-        sget_eq_vfind W₁.clock k h1.store_nodup]
+    · constructor
+      · intro he
+        have hr : restore c cfg W₃ i
+            = ({ W₃ with store := load (live W₁.store W₁.clock) W₃.clock }, .ok) := by
+          simp [restore, hf, hfs, hc.roundtrip _ he]
+        rw [hr]
+        refine ⟨rfl, live_load _ _ hnd, ?_⟩
+        intro k t
+        rw [sget_eq_vfind t k (load_nodup _ _), live_load _ _ hnd,
+          sget_eq_vfind W₁.clock k h1.store_nodup]
+      · intro he
+        simp [restore, hf, hfs, hc.lossy_fails _ he]
     · exact absurd hin hnot
   · intro hnot
     rcases hcase with ⟨hin, _⟩ | ⟨_, hfs⟩
     · exact absurd hin hnot
     · simp [restore, hf, hfs]
+
+/-- the hypothesis `encodable` is needed: a store holding an ordinary key and a NaN (value index 20) is
+checkpointed, the ordinary key is deleted; the checkpoint is listed, yet `restore` is an error and the store keeps
+its CURRENT content (key 1 only) — neither the checkpoint-time state nor part of it -/
+theorem restore_reproduces_needs_encodable_counterexample :
+    let cfg : Cfg := {}
+    let W₁ := run natCodec cfg init [.put 0 7, .put 1 20]
+    let i := (checkpoint natCodec cfg W₁).2
+    let W₃ := run natCodec cfg (checkpoint natCodec cfg W₁).1 [.delete 0]
+    i ∈ W₃.metas.map (·.id) ∧ encodable natCodec (live W₁.store W₁.clock) = false ∧
+    (restore natCodec cfg W₃ i).2 = .errParse ∧
+    live (restore natCodec cfg W₃ i).1.store (restore natCodec cfg W₃ i).1.clock = [(1, 20)] := by decide
 
 /-- a TTL entry is captured while unexpired; after it has expired, been overwritten and deleted,
 and a second checkpoint was taken in the same millisecond as the first, restoring the first
@@ -219,14 +239,19 @@ theorem interrupted_all_or_error (c : Codec) (hc : c.Lawful) (cfg : Cfg) (hl : c
     · right; simp [restore, hf, h]
     · by_cases hm : m < (c.ser (live W.store W.clock)).length
       · right; simp [restore, hf, h, hc.prefix_fails _ _ hm]
-      · left
-        have : (c.ser (live W.store W.clock)).take m = c.ser (live W.store W.clock) :=
+      · have : (c.ser (live W.store W.clock)).take m = c.ser (live W.store W.clock) :=
           List.take_of_length_le (by omega)
         rw [this] at h
-        have hr : restore c cfg S (newId cfg W)
-            = ({ S with store := load (live W.store W.clock) S.clock }, .ok) := by
-          simp [restore, hf, h, hc.roundtrip]
-        rw [hr]; exact ⟨rfl, live_load _ _ hnd⟩
+        cases he : encodable c (live W.store W.clock) with
+        | true =>
+          left
+          have hr : restore c cfg S (newId cfg W)
+              = ({ S with store := load (live W.store W.clock) S.clock }, .ok) := by
+            simp [restore, hf, h, hc.roundtrip _ he]
+          rw [hr]; exact ⟨rfl, live_load _ _ hnd⟩
+        | false =>
+          -- the complete file of a snapshot holding a value that does not read back: an error, `S` untouched
+          right; simp [restore, hf, h, hc.lossy_fails _ he]
   · right; simp [restore, hf]
 
 /-- all 9 crash points of a checkpoint of two entries, seen by a fresh store after a restart:
